@@ -61,7 +61,13 @@ class Runner(object):
             # program used ON ERROR GOTO (a pcbasic defect outside these properties)
             r = H.run(s, b'LOCATE 1,1:ON ERROR GOTO 0:NEW')
             if r.exc is not None or r.err is not None:
-                raise CheckError('NEW failed: %r' % (r,))
+                # the previous program left the session in a state NEW cannot leave: start afresh
+                self.fresh()
+                s = self.s
+                s.verif_inputs.horizon = horizon or self.horizon
+                r = H.run(s, b'LOCATE 1,1:ON ERROR GOTO 0:NEW')
+                if r.exc is not None or r.err is not None:
+                    raise CheckError('NEW failed on a fresh session: %r' % (r,))
             for l in text_lines:
                 r = H.run(s, l)
                 if r.exc is not None:
